@@ -70,6 +70,8 @@ Holds(name, s, o) ==
 Class(name, s, o) ==
     CASE name = "C09_TextEqualsHtml" /\ TextEqualsHtmlOutsidePlaceholders(s, o) /\ o.ph # <<>>
               -> "embed-placeholder-words-missing-from-text-view"
+      [] name = "C09_WordCount" /\ o.glued > 0 /\ o.wc - o.txtwc = o.glued
+              -> "word-continues-across-inline-elements"      \* the word counter counts every text node on its own
       [] name = "C05_NoScriptStyleElements" /\ o.census.script = o.census.ph_script /\ o.census.style = 0
               -> "script-inside-embed-placeholder"
       [] OTHER -> "other"
